@@ -43,7 +43,7 @@ class C19(Check):
         "plus Hypothesis-drawn configurations. Oracle: the event log is, per attempt, begin by every tracer in configuration order, then "
         "exactly one completion by every tracer in order - end with the returned response object (None for notifications) or error with "
         "the raised exception (identity) - begin and completion of one attempt carry the same context object (the caller's when supplied, "
-        "on every attempt); the number of attempts matches the retry model; the exception reaching the caller is the one reported. "
+        "on every attempt); a second request through the same client never sees a default context of the first; the number of attempts matches the retry model; the exception reaching the caller is the one reported. "
         "non-trivial = >= 2 attempts or >= 2 tracers or a failure after the transport returned; distinct = distinct spec."
     )
     assumptions = [
@@ -205,6 +205,21 @@ class C19(Check):
                     discs.append(Disc("C19/exception-swallowed", f"returned {value!r} | {where}"))
                 elif final_idx in raised and exc is not raised[final_idx]:
                     discs.append(Disc("C19/exception-changed", f"caller {exc!r} raised {raised[final_idx]!r} | {where}"))
+        # a second request through the SAME client: a default trace context belongs to one request only
+        if T >= 1 and caller_ctx is None and not discs:
+            first_ctx_ids = {e[2] for e in log}
+            for e in log:
+                setattr(e[3], 'mark_left_by_first_request', True)     # what a tracer typically does: keep state on the context
+            mark = len(log)
+            with ch.captured_sleeps():
+                try:
+                    ch.call(kind, fn)
+                except BaseException:  # noqa
+                    pass
+            second = log[mark:]
+            if second:
+                if any(getattr(e[3], 'mark_left_by_first_request', False) for e in second) or ({e[2] for e in second} & first_ctx_ids):
+                    discs.append(Disc("C19/default-context-shared-between-requests", f"the second request's tracer events carry a context of the first request | {where}"))
         classes = [f"tracers/{T}", f"ctx/{spec['ctx']}", f"kind/{rkind}", f"client/{kind}"]
         if n_sent >= 2:
             classes.append('attempts>=2')
